@@ -60,6 +60,7 @@ class TracepointConfigService:
         self._task_handler = None
         self._listeners: List[ConfigUpdateListener] = []
         self._update_lock = threading.Lock()
+        self._custom_lock = threading.Lock()
 
     def update_no_change(self, ts):
         """
@@ -192,8 +193,10 @@ class TracepointConfigService:
         config = build_trigger(registration_id, path, line, args, watches, metrics)
         if config is None:
             raise ValueError("Cannot interpret tracepoint arguments: %s" % args)
-        self._custom.append(config)
-        self._custom_ids[registration_id] = config
+        with self._custom_lock:
+            # a new list: the one an update task is reading is never changed under it
+            self._custom = self._custom + [config]
+            self._custom_ids[registration_id] = config
         self.__trigger_update(None, None)
         return registration_id
 
@@ -203,9 +206,11 @@ class TracepointConfigService:
 
         :param _id: the id of the config to remove
         """
-        registered = self._custom_ids.pop(_id, None)
-        for idx, cfg in enumerate(self._custom):
-            if cfg is registered:
-                del self._custom[idx]
-                self.__trigger_update(None, None)
+        with self._custom_lock:
+            # several threads can use their handles at once: look the tracepoint up and take it out in one step,
+            # by identity (an index found before another thread removed its own would delete the wrong one)
+            registered = self._custom_ids.pop(_id, None)
+            if registered is None:
                 return
+            self._custom = [cfg for cfg in self._custom if cfg is not registered]
+        self.__trigger_update(None, None)
